@@ -46,6 +46,7 @@ fn main() {
     let mut reuse = false;
     let mut only_fault: Option<(usize, String)> = None;
     let mut modes: Vec<String> = vec!["transient".to_string(), "sticky".to_string()];
+    let mut checks: Vec<String> = vec![];
     let mut raw_bytes: Vec<Vec<u8>> = vec![];
     let mut blooms: Vec<(usize, Vec<Vec<u8>>)> = vec![];
     let mut encodes: Vec<(u64, Vec<(Vec<u8>, Option<Vec<u8>>)>)> = vec![];
@@ -87,6 +88,7 @@ fn main() {
             "reuse" => reuse = t[1] == "1",
             "fault" => only_fault = Some((t[1].parse().unwrap(), t[2].to_string())),
             "modes" => modes = t[1..].iter().map(|x| x.to_string()).collect(),
+            "checks" => checks = t[1..].iter().map(|x| x.to_string()).collect(),
             "file" => files.push((
                 api::ikey(&unhex(t[1]), t[2].parse().unwrap(), 1),
                 api::ikey(&unhex(t[3]), t[4].parse().unwrap(), 1),
@@ -258,8 +260,9 @@ fn main() {
                 let (tx, rx) = std::sync::mpsc::channel();
                 let o = std::sync::Arc::clone(&dbops);
                 let k = std::sync::Arc::clone(&keys);
+                let checks = checks.clone();
                 std::thread::spawn(move || {
-                    let r = std::panic::catch_unwind(std::panic::AssertUnwindSafe(|| api::faults::run(&o, &k, fail_at, &mode, reuse)));
+                    let r = std::panic::catch_unwind(std::panic::AssertUnwindSafe(|| api::faults::run(&o, &k, fail_at, &mode, reuse, &checks)));
                     let _ = tx.send(r.map_err(|e| format!("panic: {}", e.downcast_ref::<String>().cloned().or(e.downcast_ref::<&str>().map(|s| s.to_string())).unwrap_or_default())));
                 });
                 match rx.recv_timeout(std::time::Duration::from_secs(20)) {
